@@ -350,6 +350,11 @@ mod api {
             v.push(format!("'{}?'", w));
         }
         for e in [":)", ";)", "x)", "o=)", ":D", "<3", ":-))", ".", "...", "\"", "`", "`a", "a`", ":e", "\\", "^_^", "$", "a:`", "kothagulo", "seshgulo", "amake", "bisoyshombondhiyoo", "shok,,", ",,k", "(k,,)", "k,", "sad", "poRa", "kotha.\"", "\"kotha..", "'k,,'", ".\"ami\"."] { v.push(e.to_string()); }
+        if bound >= 2 {
+            // exhaustive: every text of one or two of the 94 typeable characters
+            let keys: Vec<char> = (0x21u8..=0x7E).map(|b| b as char).filter(|c| crate::verif_driver::has_key(*c)).collect();
+            for a in &keys { v.push(a.to_string()); for b in &keys { v.push(format!("{}{}", a, b)); } }
+        }
         v
     }
 
@@ -431,7 +436,7 @@ mod api {
 
     /// C02, C03, C07, C16 (phonetic): every text of the corpus, typed key by key, under option combinations
     pub(crate) fn phonetic(bound: usize, shard: usize, nshards: usize) -> Value {
-        let mut o = Out::new("phonetic_api", bound, "corpus of words (bare / wrapped in punctuation), emoticons, punctuation-only and escape texts x {suggestions, English, smart quote, ANSI}");
+        let mut o = Out::new("phonetic_api", bound, "corpus of words (bare / wrapped in punctuation), emoticons, punctuation-only and escape texts (thorough: + every text of one or two of the 94 typeable characters) x {suggestions, English, smart quote, ANSI}; data-guided: typeable autocorrect.json keys (quick: every 40th) and ZWNJ-spelled dictionary words with the C07 list oracle");
         let parser = Parser::new_phonetic();
         let data = crate::data::Data::new(&make_config(&phon_cfg(json!({}))));
         let dict: std::collections::HashSet<String> = {
